@@ -60,6 +60,10 @@ CHECKS['C06'] = (OTHER, 'symbolic execution of the real analysis.freq / Panel.fr
     'Bounded symbolic verification of the wrapper code: sizes 6..9, null patterns, num_eigvalues 1..25, sparse/dense, sort on/off, reduced_dof (condensed block), second analysis after a redefinition: K v = omega^2 M v on the full size under the solver contract, zeros on removed amplitudes, ascending positive frequencies after sort, no exception for admissible inputs.',
     'ARPACK/LAPACK numerics are contract stubs; rounding in the sort key not modelled; complex (aerodynamic) spectra outside; known finding: reduced_dof is an approximation by design.',
     'DESIGN.md section 4 C06')
+CHECKS['C07'] = (OTHER, 'symbolic execution of the real Panel.calc_fext / PanelAssembly.calc_fext over de-Cythonised fg and fuvw (virtual work against the package own displacement recovery and against the oracle basis), and of sparse.solve / analysis.static / Analysis.static with an spsolve contract stub; z3 qfnra-nlsat; exact-rational replay',
+    'Bounded symbolic verification for all force positions, components, load factors, amplitudes, flags, geometry: load vector = virtual work of the loads (constant forces unscaled, incrementable ones scaled), assembly slices at the panel ranges, K c = f on active rows and c = 0 on null columns for null patterns of sizes 4..6.',
+    'spsolve is a contract stub; bay load vectors are claimed with C13; linearity in the loads is a corollary.',
+    'DESIGN.md section 4 C07')
 NA = {
     'C15': 'eigenvalue monotonicity/convergence for pencils of size 48..768 is not a bounded first-order query any installed solver can decide; the algebraic ingredients (exact Hessians, exact tables, nestedness) are decided under C02-C04 and C10 (DESIGN.md section 5)',
 }
